@@ -84,6 +84,9 @@ func checkReadNextOffset(c *Ctx, p *Prog, pkg, typ, rule string) {
 		}
 	}
 	n := 0
+	construct := name + "/next-offset-follows-the-returned-events"
+	var bad *ssa.Return
+	var badOrigins, okOrigins []string
 	for _, ret := range returnsOf(f) {
 		if len(ret.Results) != 3 {
 			continue
@@ -98,13 +101,17 @@ func checkReadNextOffset(c *Ctx, p *Prog, pkg, typ, rule string) {
 		}
 		n++
 		os := flow.Origins(resolveResult(ret, 1))
-		construct := fmt.Sprintf("%s/success-return#%d/next-offset", name, n)
-		follows := hasOrigin(os, "field:StoredEvent.Offset")
-		if follows || !usesLimit {
-			c.Discharge(rule, construct, p.Pos(ret.Pos()), "the next offset depends on the last event placed in the result ("+strings.Join(os, ",")+")")
+		if hasOrigin(os, "field:StoredEvent.Offset") || !usesLimit {
+			okOrigins = os
 		} else {
-			c.Violate(rule, construct, p.Pos(ret.Pos()), "Read can cut its result to `limit`, but the next offset it returns does not depend on which events were returned (origins "+strings.Join(os, ",")+"): a reader that continues from it skips the events that were cut off", nil)
+			bad, badOrigins = ret, os
 		}
+	}
+	switch {
+	case bad != nil:
+		c.Violate(rule, construct, p.Pos(bad.Pos()), "Read can cut its result to `limit`, but the next offset it returns does not depend on which events were returned (origins "+strings.Join(badOrigins, ",")+"): a reader that continues from it skips the events that were cut off", nil)
+	case n > 0:
+		c.Discharge(rule, construct, p.Pos(f.Pos()), "the next offset depends on the last event placed in the result ("+strings.Join(okOrigins, ",")+")")
 	}
 	c.Floor(rule, name+" success returns", n, 1)
 }
@@ -142,7 +149,8 @@ func checkEventOffsets(c *Ctx, p *Prog, pkg, typ, rule string) {
 					}
 				}
 				if synthetic {
-					c.Violate(rule, construct+"/synthetic", p.Pos(in.Pos()), "an event's offset is synthesised from the chunk's end position and the event's index (origins "+strings.Join(os, ",")+"): it cannot be used to resume (Read from it does not return the events after it)", nil)
+					// keyed by the package, not by the function the statement happens to sit in
+					c.Violate(rule, shortPkg(pkg)+"/event-offset/synthetic", p.Pos(in.Pos()), "an event's offset is synthesised from the chunk's end position and the event's index (origins "+strings.Join(os, ",")+"): it cannot be used to resume (Read from it does not return the events after it)", nil)
 				} else {
 					c.Discharge(rule, construct, p.Pos(in.Pos()), "offset from "+strings.Join(os, ","))
 				}
@@ -903,7 +911,7 @@ type ackRule struct {
 }
 
 func (r *ackRule) Inline(fn *ssa.Function) bool { return false }
-func (r *ackRule) PredOK(string) bool            { return true }
+func (r *ackRule) PredOK(string) bool           { return true }
 
 func isExecCall(c *ssa.CallCommon) bool {
 	n := calleeName(c)
@@ -1072,7 +1080,7 @@ func checkJournal(c *Ctx, p *Prog, stmts []sqlStmt, rule string) {
 type txRule struct{ BaseRule }
 
 func (r *txRule) Inline(fn *ssa.Function) bool { return fn.Parent() != nil }
-func (r *txRule) PredOK(string) bool            { return true }
+func (r *txRule) PredOK(string) bool           { return true }
 
 // sigma: [0] tx state n(one) b(egun) c(ommitted) r(olled back)
 func (r *txRule) OnInstr(e *Engine, st *State, fc *FrameCtx, in ssa.Instruction) bool {
